@@ -8,6 +8,7 @@ package main
 // through the Coq model's routing (Corr/RunStream.v).
 
 import (
+	"sync/atomic"
 	"encoding/binary"
 	"fmt"
 	"os"
@@ -71,6 +72,7 @@ type ChatSvc struct {
 	log   *streamLog
 	first int
 	bad   bool // the handler also writes one value the body codec cannot encode, between its pushes
+	lag   bool // the handler starts reading late: messages queue up at the server
 }
 
 // something BYTESCodec cannot marshal
@@ -92,6 +94,9 @@ func (c *ChatSvc) Chat(h *hStream) error {
 		c.log.mu.Lock()
 		c.log.srvWrote[-1] = append(c.log.srvWrote[-1], i+1)
 		c.log.mu.Unlock()
+	}
+	if c.lag {
+		time.Sleep(3 * time.Millisecond)
 	}
 	for {
 		var m []byte
@@ -184,7 +189,9 @@ func newStreamRunBad(e *Env, first int, chunkMode int, srvPipe, srvDirect, cliDi
 	r.srv.SetLogLevel(rpc.OffLogLevel)
 	r.srv.SetPipelining(srvPipe)
 	r.srv.SetDirectIO(srvDirect)
-	r.srv.RegisterName("Chat", &ChatSvc{log: r.log, first: first, bad: bad})
+	noCopy := chunkMode == 0 && first == 0 && srvPipe // some runs: NoCopy server whose handler lags behind the client
+	r.srv.SetNoCopy(noCopy)
+	r.srv.RegisterName("Chat", &ChatSvc{log: r.log, first: first, bad: bad, lag: noCopy})
 	go func() {
 		r.srv.ServeCodec(rpc.NewServerCodec(&rpc.BYTESCodec{}, nil, r.srvRec, srvDirect, 0))
 		close(r.done)
@@ -193,7 +200,7 @@ func newStreamRunBad(e *Env, first int, chunkMode int, srvPipe, srvDirect, cliDi
 	if cliDirect {
 		r.conn.SetDirectIO(true)
 	}
-	r.replay = map[string]interface{}{"first_pushes": first, "chunk_mode": chunkMode, "server_pipelining": srvPipe, "server_directIO": srvDirect, "client_directIO": cliDirect, "unencodable_writes": bad, "seed": e.Seed}
+	r.replay = map[string]interface{}{"first_pushes": first, "chunk_mode": chunkMode, "server_pipelining": srvPipe, "server_directIO": srvDirect, "client_directIO": cliDirect, "unencodable_writes": bad, "server_nocopy_lagging_handler": noCopy, "seed": e.Seed}
 	return r
 }
 
@@ -598,8 +605,10 @@ func runStream(work, prop string) {
 	streamPoll(e)
 	if prop == "C10" {
 		streamStopRace(e)
-		streamMultiReader(e)
+		streamWriterAtCut(e)
+		lifeOpenThenGone(e)
 	}
+	streamMultiReader(e)
 	e.Res.Rule = "end-to-end stream runs over a chunking byte pipe: 1-4 streams per connection interleaved with unary calls and pings; the handler pushes 0-3 messages before reading (first server write races with stream establishment); numbered, tagged, self-checking messages of 4..70004 bytes; every stream's two directions compared message by message; then a reader blocked on each end and (a) client Close of one stream with siblings kept working, (b) connection loss; poll-mode server over a real unix socket; (C10) readers about to block racing with Close / connection loss, 12 streams a round; the frames both readers received are replayed through the model's routing; non-trivial = distinct (pushes, chunk mode, streams, close mode, message count)"
 	names := writeCases(work, "From Coq Require Import List. Import ListNotations. From RPC Require Import RunStream. From RPC.Stream Require Import Model.", "scase", cases, 60)
 	e.Res.ModelCases = len(cases)
@@ -753,6 +762,29 @@ func streamMultiReader(e *Env) {
 			}()
 		}
 		quiesce()
+		if k%2 == 0 {
+			// two messages arrive back to back while the readers are blocked: two of them get one each
+			s.WriteMessage(ptr(streamMsg(7, 2, 1)))
+			s.WriteMessage(ptr(streamMsg(7, 4, 1)))
+			for n := 0; n < 2; n++ {
+				select {
+				case err := <-out:
+					if err != nil {
+						e.fail(pid+"-blocked-read-error-kind", fmt.Sprintf("a blocked ReadMessage returned %v when a message arrived", err), desc)
+					}
+				case <-time.After(3 * time.Second):
+					e.fail(pid+"-message-lost", fmt.Sprintf("two messages arrived back to back for %d goroutines blocked in ReadMessage on one stream; only %d of them were handed a message within 3s", readers, n), desc)
+					n = 2
+				}
+			}
+			for i := 0; i < 2; i++ { // block two again for the ending below
+				go func() {
+					var m []byte
+					out <- s.ReadMessage(nil, &m)
+				}()
+			}
+			quiesce()
+		}
 		switch k % 3 {
 		case 0:
 			s.Close()
@@ -779,5 +811,111 @@ func streamMultiReader(e *Env) {
 		r.conn.Close()
 		r.cliRW.Close()
 		e.count("multi-reader", fmt.Sprintf("mr-%d", k))
+	}
+}
+
+// StallSvc: a stream handler that reads nothing until it is released (the peer "is not reading").
+type StallSvc struct{ release chan struct{} }
+
+func (s *StallSvc) Stall(h *hStream) error {
+	<-s.release
+	for {
+		var m []byte
+		if err := h.s.ReadMessage(nil, &m); err != nil {
+			return nil
+		}
+	}
+}
+
+// streamWriterAtCut: a WriteMessage is in progress (the transport is full, the peer does not read) at the
+// moment the connection ends: the writer, a reader blocked on the same stream, and later calls all return.
+func streamWriterAtCut(e *Env) {
+	pid := e.Res.Property
+	for k := 0; k < 6; k++ {
+		how := []string{"Conn.Close", "the peer closing the connection"}[k%2]
+		desc := map[string]interface{}{"scenario": "a stream write is blocked in the transport when the connection ends", "ended_by": how, "run": k, "seed": e.Seed}
+		e.inflight(desc)
+		svc := &StallSvc{release: make(chan struct{})}
+		srv := rpc.NewServer()
+		srv.SetLogLevel(rpc.OffLogLevel)
+		srv.RegisterName("St", svc)
+		cend, send := newPipeCap(2) // two frames fit; the third write blocks
+		done := make(chan struct{})
+		go func() {
+			srv.ServeCodec(rpc.NewServerCodec(&rpc.BYTESCodec{}, nil, send, false, 0))
+			close(done)
+		}()
+		conn := rpc.NewConnWithCodec(rpc.NewClientCodec(&rpc.BYTESCodec{}, nil, cend, 0))
+		if k%3 == 2 {
+			conn.SetPipelining(true)
+		}
+		s, err := conn.NewStream("St.Stall")
+		if err != nil {
+			e.fail(pid+"-open-failed", fmt.Sprintf("NewStream failed: %v", err), desc)
+			continue
+		}
+		var writes int32
+		wdone := make(chan error, 1)
+		go func() {
+			for {
+				m := make([]byte, 2000)
+				if err := s.WriteMessage(&m); err != nil {
+					wdone <- err
+					return
+				}
+				if atomic.AddInt32(&writes, 1) > 100000 {
+					wdone <- nil
+					return
+				}
+			}
+		}()
+		rdone := make(chan error, 1)
+		go func() {
+			var m []byte
+			rdone <- s.ReadMessage(nil, &m)
+		}()
+		// wait until the writer is stuck in the transport
+		last := int32(-1)
+		for i := 0; i < 200; i++ {
+			time.Sleep(time.Millisecond)
+			n := atomic.LoadInt32(&writes)
+			if n == last && n > 0 {
+				break
+			}
+			last = n
+		}
+		if k%2 == 0 {
+			go conn.Close()
+		} else {
+			send.Close()
+		}
+		deadline := time.After(3 * time.Second)
+		released := 0
+		for released < 2 {
+			select {
+			case <-wdone:
+				released++
+			case <-rdone:
+				released++
+			case <-deadline:
+				e.fail(pid+"-stream-op-blocked-after-cut", fmt.Sprintf("a WriteMessage was in progress (transport full) when the connection ended (%s): 3s later only %d of the 2 goroutines using the stream (one writing, one reading) had returned", how, released), desc)
+				released = 2
+			}
+		}
+		cerr := make(chan error, 1)
+		go func() { cerr <- conn.Ping() }()
+		select {
+		case <-cerr:
+		case <-time.After(3 * time.Second):
+			e.fail(pid+"-call-blocked-after-cut", "a call made after the connection had ended (with a stream write in progress at that moment) did not return within 3s", desc)
+		}
+		close(svc.release)
+		cend.Close()
+		send.Close()
+		select {
+		case <-done:
+		case <-time.After(3 * time.Second):
+		}
+		e.count("writer-at-cut", fmt.Sprintf("wac-%d", k))
 	}
 }
